@@ -249,6 +249,15 @@ def insertm_ensures(m):
     ]
 
 
+def mem_hints(m, o):
+    """Hints of the sync evict-until-fits loop: the stated usize assumption, and (C07/C08 under memory pressure) the per-iteration
+    obligation that EVERY eviction removes a victim the configured policy allows in the state it was chosen in."""
+    return [(('fn_start',), 'resident_fits', 'broadcast use ax_resident_fits;'),
+            (('loop_start', 0), 'resident_fits_loop', 'broadcast use ax_resident_fits; broadcast use fl::group_float; broadcast use b_arc_min_zero; broadcast use b_tlru_min_zero; let ghost pre_map = self.%s@; let ghost pre_order = %s@;' % (m, o)),
+            (('loop_end', 0), 'each_memory_eviction_is_a_policy_victim',
+             'assert(exists|v: String| sync_victim_ok(self.policy, pre_map, pre_order, v, self.ttl) && self.%s@ == #[trigger] pre_map.remove(v) && %s@ == rm1(pre_order, v));' % (m, o))]
+
+
 MEM_HINTS = [(('fn_start',), 'resident_fits', 'broadcast use ax_resident_fits;'), (('loop_start', 0), 'resident_fits_loop', 'broadcast use ax_resident_fits;')]
 
 
